@@ -41,7 +41,7 @@ def main(tier):
     ck.stage_a(errs, ["GenMod.v", "GenC04.v"], "TieMod.v", "C09.v", tie_text=modties.tie_text(),
                more_ties=[("TieC04.v", open(os.path.join(COQ, "Tie", "TieC04.v")).read())])
     rng = ck.rng
-    ncase = 40 if tier == "quick" else 400
+    ncase = 40 if tier == "quick" else 1500
     wq = ["qint8", "qint4", "qint2", "qfloat8", "qfloat8_e4m3fn", "qfloat8_e5m2", "qint4", "qint2"]
     aq = [None, "qint8", "qfloat8", None, "qint8"]
     steps = ["forward", "calibrate", "freeze", "freeze", "to_cpu", "to_device_obj", "deepcopy", "state_dict_reload"]
